@@ -440,6 +440,38 @@ pub fn run(ctx: &mut Ctx) {
     quad_case(ctx, 1.0, -(r + r * (1.0 + dl)), r * r * (1.0 + dl));
   }
 
+  // ---------------------------------------------------------------- pinned inputs of defect D2 (regression)
+  {
+    // BBO, crystal θ = φ = 0, 800 nm, directions 1e-4 rad off ẑ
+    let c = &CRYSTALS[0];
+    let cs = setup(c, 0.0, 0.0, 20.0);
+    let n = *cs.crystal.get_indices(800e-9 * M, cs.temperature);
+    let k = Case { c, cs, theta: 0.0, phi: 0.0, lambda: 800e-9, t_c: 20.0, n };
+    for rad in [1e-4, 2e-4, 5e-5, 1e-5] {
+      for j in 0..64 {
+        let az = 2.0 * PI * (j as f64) / 64.0;
+        // both an exactly normalised and a plain (sin r cos a, sin r sin a, cos r) direction
+        let d = ring_point(&Vector3::z(), rad, az);
+        direction_case(ctx, &k, &d, "d2-bbo");
+        let d2 = Vector3::new(rad.sin() * az.cos(), rad.sin() * az.sin(), rad.cos());
+        direction_case(ctx, &k, &d2, "d2-bbo");
+      }
+    }
+    // biaxial crystals exactly on their optic axes
+    for ci in [1usize, 2] {
+      let c = &CRYSTALS[ci];
+      for lambda in [800e-9, 1064e-9, 1550e-9] {
+        let cs = setup(c, 0.0, 0.0, 20.0);
+        let n = *cs.crystal.get_indices(lambda * M, cs.temperature);
+        let k = Case { c, cs, theta: 0.0, phi: 0.0, lambda, t_c: 20.0, n };
+        for ax in optic_axes(&n) {
+          direction_case(ctx, &k, &ax, "d2-biaxial-on-axis");
+          direction_case(ctx, &k, &(-ax), "d2-biaxial-on-axis");
+        }
+      }
+    }
+  }
+
   // ---------------------------------------------------------------- index along a direction
   let per = (ctx.n / 40).max(2); // directions per (crystal, orientation) on the sphere
   let n_orient = if ctx.thorough { 6 } else { 3 };
